@@ -47,6 +47,23 @@ def emittedIdents (o : Out) : List String :=
   o.groups.flatMap (fun g => g.layoutFields.map (·.1)) ++
   o.vertexEntries.flatMap (fun e => e.params.map (·.1))
 
+/-- `include_str!(path)` when a path is given, the source as a string literal otherwise -/
+def sourceOf (src : String) (path : Option String) : RSource :=
+  match path with
+  | some p => .includeStr p
+  | none => .literal src ""
+
+def pushRangesOf (push : Option (Nat × Stages)) : List RPushRange :=
+  match push with
+  | some p => [⟨"PUSH_CONSTANT_STAGES", 0, p.1⟩]
+  | none => []
+
+/-- `pretty_print`: `syn::parse_file(..).unwrap()` panics when a WGSL name is a Rust keyword -/
+def finish (o : Options) (out : Out) : G Out :=
+  if !o.rustfmt && (emittedIdents out).any (fun n => rustKeywords.contains n) then
+    .error (.panic "unparsable-output")
+  else .ok out
+
 /-- `create_shader_module_inner` after the parse/validate gates (C17 covers those). -/
 def gen (m : Module) (o : Options) (src : String) (path : Option String) : G Out := do
   let data ← getBindGroupData m
@@ -61,23 +78,15 @@ def gen (m : Module) (o : Options) (src : String) (path : Option String) : G Out
   let fes := fragmentEntries m
   let push ← pushConstantRangeStages m gs
   let ovs ← pipelineOverridableConstants m
-  let out : Out :=
+  finish o
     { structs := structs, consts := cs, overrides := ovs, groups := groups, bindModule := bindModule
       vertex := vertex, entryConsts := entryConsts, vertexEntries := ves, fragmentEntries := fes
       compute := compute
-      source := match path with
-        | some p => .includeStr p
-        | none => .literal src ""
+      source := sourceOf src path
       pushStages := push.map fun p => ("PUSH_CONSTANT_STAGES", p.2)
       pipelineGroups := data.map (·.1)
-      pushRanges := match push with
-        | some p => [⟨"PUSH_CONSTANT_STAGES", 0, p.1⟩]
-        | none => []
+      pushRanges := pushRangesOf push
       boiler := entryBoiler m ++ [("fn:create_shader_module", createShaderModuleText)]
       unknown := [] }
-  -- `pretty_print`: `syn::parse_file(..).unwrap()` panics when a WGSL name is a Rust keyword
-  if !o.rustfmt && (emittedIdents out).any (fun n => rustKeywords.contains n) then
-    .error (.panic "unparsable-output")
-  else pure out
 
 end WgslVerif
